@@ -65,6 +65,9 @@ func TestCheck(t *testing.T) {
 			}
 		}
 		x, err := mon.NewRIBMonVia(g.S, false, via)
+		if err == nil && i%3 == 1 {
+			x.WithIdleHooks()
+		}
 		if err != nil {
 			run.Fatal(err.Error())
 			return
